@@ -46,6 +46,7 @@ type pathRec struct {
 }
 
 type eng struct {
+	deep    int // extra elements in child lists (thorough tier)
 	p       *load.Program
 	s       *oblig.Set
 	vm      *vmshape.Model
@@ -87,6 +88,11 @@ const (
 func Run(p *load.Program, tier string) *oblig.Set {
 	s := oblig.NewSet()
 	e := &eng{p: p, s: s, sums: map[key]map[string]childOut{}, deps: map[key]map[key]bool{}, queued: map[key]bool{}, paths: map[key][]*pathRec{}}
+	if tier == "thorough" {
+		// one more element in every child list: array literals 0-4, arguments
+		// and parameters 0-3, blocks 2-4 statements, loops with 1-3 iterators
+		e.deep = 1
+	}
 	if !e.anchors() {
 		return s
 	}
@@ -264,7 +270,7 @@ func (e *eng) fixpoint() {
 	if workers > 16 {
 		workers = 16
 	}
-	for len(e.queue) > 0 && e.nruns < 60000 {
+	for len(e.queue) > 0 && e.nruns < 60000*(1+9*e.deep) {
 		batch := e.queue
 		e.queue = nil
 		for _, k := range batch {
@@ -505,10 +511,10 @@ func (r *runState) materialise(tn string) absint.Val {
 			case types.Identical(fl.Type(), e.nodeT):
 				f[i] = r.newRef(fname)
 			case types.Identical(fl.Type(), e.listT):
-				lo, hi := 0, 2
+				lo, hi := 0, 2+e.deep
 				switch fname {
 				case "List.Elems":
-					hi = 3
+					hi = 3 + e.deep
 				case "For.VarRefs", "For.Iterators":
 					lo = 1
 				}
@@ -531,7 +537,7 @@ func (r *runState) materialise(tn string) absint.Val {
 					if fname == "Block.Body" {
 						lo = 2
 					}
-					n := lo + r.in.Oracle.Choose(2, "len("+fname+")")
+					n := lo + r.in.Oracle.Choose(2+e.deep, "len("+fname+")")
 					r.pa.lens[fname] = n
 					var els []absint.Val
 					for j := 0; j < n; j++ {
@@ -575,14 +581,18 @@ func (r *runState) materialise(tn string) absint.Val {
 func (e *eng) runKey(k key, reqs map[key]bool) []*pathRec {
 	var out []*pathRec
 	o := &absint.Oracle{}
-	for n := 0; n < 6000; n++ {
+	limit := 6000
+	if e.deep > 0 {
+		limit = 100000
+	}
+	for n := 0; n < limit; n++ {
 		pa := e.onePath(k, o, reqs)
 		out = append(out, pa)
 		if !o.Next() {
 			break
 		}
-		if n == 5999 {
-			pa.end = "undecided: more than 6000 paths in one context"
+		if n == limit-1 {
+			pa.end = fmt.Sprintf("undecided: more than %d paths in one context", limit)
 		}
 	}
 	return out
